@@ -30,7 +30,7 @@ CLAIMS["C03"] = ("other", "interprocedural taint (unprotected guards) + must-pas
     "touch of the retired object or its lock (this is what makes collect/FromIterator safe); (M2) at each of the 25 retire sites an unlink "
     "write on the object's own container precedes the retire on every value-flow path; (M3) immediate frees only on private/exclusively "
     "owned objects; (M4) copy-loop/retire-loop agreement; (M6) the forwarding marker is handed out only after next_table is set. Each is a necessary condition: breaking one yields a concrete use-after-free. "
-    "A tree bin retired whole does not also have its nodes' values retired one by one (M9). Not decided: that references stay *unchanged*, the collector's own correctness, value-level aliasing beyond copies.",
+    "A tree bin retired whole does not also have its nodes' values retired one by one (M9); a removed or replaced value is retired exactly once (M10 = O4). Not decided: that references stay *unchanged*, the collector's own correctness, value-level aliasing beyond copies.",
     "DESIGN.md §4 C03", TRUST)
 
 CLAIMS["C07"] = ("other", "null-check contradiction rule (value-chain path search) + private-target rule over MIR",
@@ -59,7 +59,7 @@ CLAIMS["C19"] = ("other", "panic-site reachability + delegation (who-may-call) r
     "Clauses: (V1) in the serde visitors no panic-family call is reachable after input has been pulled from the deserialiser, so a "
     "repeated key or element yields a value, not a panic; (V2) the visitors build the collection through exported, guard-checked functions "
     "with the new collection's own guard; (V3) the rayon impls only delegate to exported functions and sibling impls, with a per-worker guard "
-    "of the same map; (V4) every entry pulled from the deserialiser reaches an insert before the next pull or the return; (V5) no filtering, deduplicating, truncating or searching operation stands between the input and the insert in the rayon and serde entry points. Not decided: serialise/deserialise round-trip equality and 'same key set as sequential insertion' (run-time values).",
+    "of the same map; (V4) every entry pulled from the deserialiser reaches an insert before the next pull or the return; (V5) no filtering, deduplicating, truncating or searching operation stands between the input and the insert in the rayon and serde entry points; (V6) a visitor inserts only into a collection it created itself, or clears the one it was handed first. Not decided: serialise/deserialise round-trip equality and 'same key set as sequential insertion' (run-time values).",
     "DESIGN.md §4 C19", TRUST + " serde/rayon adaptor internals are outside the analysis.")
 
 CLAIMS["C01"] = ("other", "MIR path rules: lock-region dataflow, edge dominance, must-pass-through, delegation rule",
